@@ -199,8 +199,8 @@ func (h *genericContextualizer) WithConfig(rawConfig map[string]any) (Contextual
 		id:         h.id,
 		e:          h.e,
 		payload:    x.IfThenElse(conf.Payload != nil, conf.Payload, h.payload),
-		fwdHeaders: x.IfThenElse(len(conf.ForwardHeaders) != 0, conf.ForwardHeaders, h.fwdHeaders),
-		fwdCookies: x.IfThenElse(len(conf.ForwardCookies) != 0, conf.ForwardCookies, h.fwdCookies),
+		fwdHeaders: x.IfThenElse(conf.ForwardHeaders != nil, conf.ForwardHeaders, h.fwdHeaders),
+		fwdCookies: x.IfThenElse(conf.ForwardCookies != nil, conf.ForwardCookies, h.fwdCookies),
 		ttl: x.IfThenElseExec(conf.CacheTTL != nil,
 			func() time.Duration { return *conf.CacheTTL },
 			func() time.Duration { return h.ttl }),
